@@ -35,6 +35,10 @@ pub enum VRefused {
     UpdateBeyond { extra: u8 },
     ImportOtherVersion { bump: u8, forced_after: bool },
     ImportOtherFormat,
+    /// forced import under another version while a read-only clone still references the data region:
+    /// the removal of the data region is refused, so the forced import fails - and must not have
+    /// discarded anything (e.g. the deleted-slot region) on the way
+    ForcedImportHeld,
 }
 
 #[derive(Clone, Debug, Serialize, Deserialize)]
@@ -316,6 +320,50 @@ where
                         let v = Sut::<V>::import(&sut.db, &sut.name, sut.version, cfg.retention, false)?;
                         sut.vec = Some(v);
                     }
+                    VRefused::ForcedImportHeld => {
+                        if sut.commit_mode && sut.model.dirty_since_commit {
+                            continue;
+                        }
+                        sut.vm().flush().map_err(|e| format!("{tag} flush: {e}"))?;
+                        sut.db.flush().map_err(|e| format!("{tag} db.flush: {e}"))?;
+                        sut.model.stored = sut.model.items.len();
+                        let held = sut.v().read_only_clone();
+                        drop(sut.vec.take());
+                        let before = region_dump(&sut.db);
+                        let layout_before = snapshot_layout(&sut.db);
+                        let v2 = Version::new(u32::from(sut.version) + 5);
+                        let res = V::forced_import_with(ImportOptions::new(&sut.db, &sut.name, v2).with_saved_stamped_changes(cfg.retention));
+                        match res {
+                            Err(_) => {
+                                obs.label("refused:forced-import-while-clone-held");
+                                if !sut.model.holes().is_empty() {
+                                    obs.label("refused:forced-import-while-clone-held+holes");
+                                }
+                                let after = region_dump(&sut.db);
+                                if before != after {
+                                    let a: Vec<_> = before.keys().collect();
+                                    let b: Vec<_> = after.keys().collect();
+                                    return Err(format!(
+                                        "{tag} op #{i}: a forced import that failed (data region still referenced) changed the regions: {a:?} -> {b:?}"
+                                    ));
+                                }
+                                snap_eq(&layout_before, &snapshot_layout(&sut.db))
+                                    .map_err(|e| format!("{tag} op #{i}: failed forced import changed the layout: {e}"))?;
+                                drop(held);
+                                let v = Sut::<V>::import(&sut.db, &sut.name, sut.version, cfg.retention, false)?;
+                                sut.vec = Some(v);
+                            }
+                            Ok(v) => {
+                                // accepted: a real reset (version mismatch) - not a refusal, follow it in the model
+                                drop(held);
+                                obs.label("forced-import-while-clone-held:accepted");
+                                sut.version = v2;
+                                sut.model = crate::vecmodel::VModel::new();
+                                sut.vec = Some(v);
+                                continue;
+                            }
+                        }
+                    }
                     VRefused::ImportOtherFormat => {
                         if sut.commit_mode && sut.model.dirty_since_commit {
                             continue;
@@ -396,6 +444,7 @@ impl Prop for P {
                 2 => (0u8..5).prop_map(|extra| VRefused::UpdateBeyond { extra }),
                 2 => (0u8..3, any::<bool>()).prop_map(|(bump, forced_after)| VRefused::ImportOtherVersion { bump, forced_after }),
                 2 => Just(VRefused::ImportOtherFormat),
+                2 => Just(VRefused::ForcedImportHeld),
             ];
             let vrop = prop_oneof![
                 5 => vop_strategy(mix).prop_map(VROp::Plain),
